@@ -64,8 +64,12 @@ func (r *newRevisionReconciler) Reconcile(ctx context.Context,
 		"collisionRev", conflictingObjectSet.GetRevision(),
 		"latestRev", latestRevisionNumber)
 	controllerRef := metav1.GetControllerOf(conflictingObjectSet.ClientObject())
+	// A revision of 0 means the ObjectSet has not been picked up by its controller yet, which,
+	// together with the checks below, identifies it as the ObjectSet that has just been created
+	// by this ObjectDeployment: no new ObjectSet is created while another one is still waiting
+	// for its revision number, so it can not be an older revision.
 	if !conflictingObjectSet.IsArchived() &&
-		conflictingObjectSet.GetRevision() >= latestRevisionNumber &&
+		(conflictingObjectSet.GetRevision() == 0 || conflictingObjectSet.GetRevision() >= latestRevisionNumber) &&
 		controllerRef != nil &&
 		controllerRef.UID == objectDeployment.ClientObject().GetUID() &&
 		equality.Semantic.DeepEqual(newObjectSet.GetTemplateSpec(), conflictingObjectSet.GetTemplateSpec()) {
